@@ -4,7 +4,8 @@
    then a reader performs up to MaxGets gets.
      RoundTrip:  with an uncorrupted buffer, reading with the mirrored gets returns exactly the values put, in order;
      Bounded:    whatever the buffer and the gets, a successful get consumed only bytes inside min(size, MaxSize), the cursor
-                 never passes size, and every refused get is one of the cases the statement names. *)
+                 never passes size, and every refused get is one of the cases the statement names;
+     Refines:    in every reachable state, today's reader (ImplDoGet) succeeds only where DoGet does, with the same result. *)
 EXTENDS TypedMsg, TLC
 MaxPuts == 2
 MaxGets == 2
@@ -46,6 +47,8 @@ Bounded == /\ off <= MinN(buf.size, MaxSize) \/ results = <<>>
                      \/ g.op = "int" /\ (4 > buf.size - before \/ before + 4 > MaxSize)
                      \/ g.op = "str" /\ LET l == GetInt(buf, before) IN
                                         ~l.ok \/ l.v < 0 \/ l.v > MaxSize \/ l.v > buf.size - l.off \/ l.off + l.v > MaxSize
+\* the reader as implemented (I-layer) never succeeds where the statement's reader (P-layer) raises, and returns the same
+Refines == \A g \in GetOps : LET im == ImplDoGet(buf, off, g) IN im.ok => DoGet(buf, off, g) = im
 ASSUME Int32Of(Int32Bytes(0 - 1)) = 0 - 1 /\ Int32Bytes(0 - 1) = <<255, 255, 255, 255>> /\ Int32Bytes(258) = <<2, 1, 0, 0>>
 ASSUME Int32Of(Int32Bytes(0 - 2147483647 - 1)) = 0 - 2147483647 - 1 /\ Int32Of(<<255, 255, 255, 127>>) = 2147483647
 ====
